@@ -19,6 +19,7 @@ def c15 (toks : List String) : Option String :=
       let os ← natsOf offs
       let data ← rleDecode d
       pure (",".intercalate ((decodeVis os data).map fun l => if l.isEmpty then "-" else ".".intercalate (l.map toString)))
+  | ["c15gflags", to, fl] => do pure (toString (groupFlagsTo (← to.toNat?) (← fl.toNat?)))
   | ["c15group", lay] => do
       let l ← parseLayout lay
       pure (" ".intercalate ((groupCounts l).map fun p => s!"{p.1}={p.2}"))
